@@ -25,7 +25,8 @@ The elastic layer's narrowest type is `rounding_integer<wide_integer<digits N, N
   proves that such a multi-word integer is an `N`-bit two's-complement integer, `N` = limb width × limb count;
   the model therefore treats it as the two's-complement `IntTy` of that width (`CnlModel/CInt.lean` is written
   for any `bits`; integral promotion leaves every type of 32 bits or more alone, so it never applies to
-  multi-word storage).  `storage_eq_wide` (CnlProofs/Static.lean) ties `storage` to `Wide.storage`.
+  multi-word storage).  `storage_multiword_is_C10_format` (CnlProperties/C11.lean) ties `storage` to `Wide.storage`,
+  `storage_spec` (CnlProofs/StaticT.lean) is the only fact about it the proofs use.
 * the result narrowest of a binary operator (`elastic_tag/overloads.h`) has the width of the wider operand
   narrowest and the signedness of the policy (no integral promotion: the representation is a `wide_integer`);
   unary minus yields the signed narrowest; `scale<k>` keeps the narrowest; `<< constant<k>` adopts the signedness
